@@ -15,9 +15,6 @@ def WireOK (a : Args) (F : Bytes) (r : Res) : Prop :=
   ∃ w q, r.wire = w ++ (if q = true then quitCmd else []) ∧ w <+: F ∧
     (r.rcpt = [] ∨ cmdsUpTo a r.rcpt.length <+: w) ∧ (headB r.msg = cK → q = true ∧ w = F)
 
-theorem headB_dropped (h : Bytes) (c : Bool) : headB (droppedRep h c) = cZ := by
-  unfold droppedRep; simp only [List.append_assoc]; rw [headB_append _ _ (by decide)]; decide
-
 theorem wire_lost (a : Args) (F : Bytes) (rs : List Bytes) (w : Bytes) (c wo : Bool) (h1 : w <+: F)
     (h2 : rs = [] ∨ cmdsUpTo a rs.length <+: w) : WireOK a F (lost a rs w c wo) :=
   ⟨w, false, by simp [lost], h1, h2, by
